@@ -26,7 +26,8 @@ fn encode_gzip(value: Value, compression_level: Value) -> Resolved {
     let compression_level = if level > MAX_COMPRESSION_LEVEL {
         return Err(format!("compression level must be <= {MAX_COMPRESSION_LEVEL}").into());
     } else {
-        flate2::Compression::new(level)
+        // flate2 accepts the levels 0..=9 (and debug-asserts it): 10 means "best" as well
+        flate2::Compression::new(level.min(9))
     };
 
     let value = value.try_bytes()?;
